@@ -7,7 +7,7 @@
 //!  F1  every conflict-free mapping that touches <= K of the 11 boundary code points P, each mapped
 //!      to one of 6 glyph ids G(cp)                      (K = 5 quick, 7 thorough)
 //!      - lookups on P ∪ P±1 ∪ {0, 0xFFFF, 0x110000}; for mappings touching <= Kb points additionally
-//!        every BMP code point                              (Kb = 2 quick, 3 thorough)
+//!        every BMP code point                              (Kb = 2 quick, 4 thorough)
 //!  F2  dense runs of length 1..=300 at 3 base positions with glyph strides {+1, -1, +1 with one break
 //!      at every position}
 //!  F3  every sequence of <= 3 blocks (type in {ordered, reversed, stride-2}, length 1..=Lb) joined
@@ -44,6 +44,8 @@ const P: [u32; 11] = [
 
 pub const ID_DELTA: &str = "Cmap::from_mappings panic: format-4 delta >= 32768";
 pub const ID_10FFFF: &str = "Charmap::mappings omits U+10FFFF";
+pub const ID_CMAP4_LEN: &str = "Cmap compile panic: format-4 subtable longer than 65535 bytes";
+pub const ID_RANGE_OFFSET: &str = "Cmap::from_mappings panic: format-4 idRangeOffset exceeds 65535";
 
 /// G(cp): exactly six distinct glyph ids in 1..=0xFFFE per code point (DESIGN §3 C08):
 /// 1, 2, cp-0x1F (in-order run), 0x24-cp (reversed run), 0x8000+cp (delta > 32767), 0xFFFE —
@@ -531,7 +533,7 @@ fn subsets_up_to(k: usize) -> Vec<Vec<usize>> {
 
 fn point_family(run: &Run) {
     let k = run.tier.pick(5usize, 7usize);
-    let kb = run.tier.pick(2usize, 3usize);
+    let kb = run.tier.pick(2usize, 4usize);
     run.bound("F1.code_points_P", json!(P.iter().map(|p| format!("{p:#x}")).collect::<Vec<_>>()));
     run.bound(
         "F1.glyph_ids_G",
@@ -740,7 +742,7 @@ struct SelSpec {
 }
 
 const UVS_BASE: [(u32, u16); 3] = [(0x30, 1), (0x31, 2), (0x41, 3)];
-const UVS_SELECTORS: [u32; 3] = [0xFE00, 0xFE01, 0xE0100];
+const UVS_SELECTORS: [u32; 5] = [0xFE00, 0xFE01, 0xE0100, 0xFE0F, 0xE01EF];
 const UVS_RANGES: [(u32, u8); 5] = [(0x30, 0), (0x30, 2), (0x40, 255), (0x4E00, 0), (0x10000, 1)];
 const UVS_ND_CPS: [u32; 4] = [0x31, 0x41, 0x4E00, 0x10001];
 const UVS_ND_GIDS: [u16; 2] = [5, 0xFFFE];
@@ -748,7 +750,9 @@ const UVS_QUERY_CPS: [u32; 19] = [
     0x2F, 0x30, 0x31, 0x32, 0x33, 0x3F, 0x40, 0x41, 0x42, 0x13F, 0x140, 0x4DFF, 0x4E00, 0x4E01,
     0xFFFF, 0x10000, 0x10001, 0x10002, 0x10FFFF,
 ];
-const UVS_QUERY_SELS: [u32; 6] = [0xFDFF, 0xFE00, 0xFE01, 0xFE02, 0xE00FF, 0xE0100];
+const UVS_QUERY_SELS: [u32; 12] = [
+    0xFDFF, 0xFE00, 0xFE01, 0xFE02, 0xFE0E, 0xFE0F, 0xFE10, 0xE00FF, 0xE0100, 0xE01EE, 0xE01EF, 0xE01F0,
+];
 
 fn uvs_json(spec: &[SelSpec]) -> Value {
     json!({"kind":"uvs","selectors": spec.iter().map(|s| json!({
@@ -783,7 +787,7 @@ fn uvs_from_json(v: &Value) -> Vec<SelSpec> {
 /// every per-selector body: default ranges (None, 0, 1 or 2 ascending disjoint ranges) ×
 /// non-default mappings (None, 0, 1 or 2 ascending), excluding bodies in which a non-default
 /// character lies inside a default range (the answer would be ambiguous).
-fn uvs_bodies() -> Vec<(Option<Vec<(u32, u8)>>, Option<Vec<(u32, u16)>>)> {
+fn uvs_bodies(want_clash: bool) -> Vec<(Option<Vec<(u32, u8)>>, Option<Vec<(u32, u16)>>)> {
     let mut defs: Vec<Option<Vec<(u32, u8)>>> = vec![None, Some(vec![])];
     for r in UVS_RANGES {
         defs.push(Some(vec![r]));
@@ -820,7 +824,7 @@ fn uvs_bodies() -> Vec<(Option<Vec<(u32, u8)>>, Option<Vec<(u32, u16)>>)> {
                     .any(|(c, _)| d.iter().any(|(s, k)| *c >= *s && *c <= *s + *k as u32)),
                 _ => false,
             };
-            if !clash {
+            if clash == want_clash {
                 out.push((d.clone(), n.clone()));
             }
         }
@@ -829,18 +833,27 @@ fn uvs_bodies() -> Vec<(Option<Vec<(u32, u8)>>, Option<Vec<(u32, u16)>>)> {
 }
 
 fn uvs_expected(spec: &[SelSpec], cp: u32, sel: u32) -> Option<MapVariant> {
-    let s = spec.iter().find(|s| s.sel == sel)?;
-    if let Some(d) = &s.def {
-        if d.iter().any(|(st, k)| cp >= *st && cp <= *st + *k as u32) {
-            return Some(MapVariant::UseDefault);
-        }
+    uvs_expected2(spec, cp, sel).0
+}
+
+/// (answer, alternative): when a character is both in a default range and a non-default mapping of
+/// one selector (ill-formed per the specification) either encoded answer is accepted.
+fn uvs_expected2(spec: &[SelSpec], cp: u32, sel: u32) -> (Option<MapVariant>, Option<MapVariant>) {
+    let Some(s) = spec.iter().find(|s| s.sel == sel) else {
+        return (None, None);
+    };
+    let d = s
+        .def
+        .as_ref()
+        .and_then(|d| d.iter().any(|(st, k)| cp >= *st && cp <= *st + *k as u32).then_some(MapVariant::UseDefault));
+    let n = s.nondef.as_ref().and_then(|n| {
+        n.iter().find(|(c, _)| *c == cp).map(|(_, g)| MapVariant::Variant(GlyphId::new(*g as u32)))
+    });
+    match (d, n) {
+        (Some(d), Some(n)) => (Some(d), Some(n)),
+        (Some(d), None) => (Some(d), None),
+        (None, n) => (n, None),
     }
-    if let Some(n) = &s.nondef {
-        if let Some((_, g)) = n.iter().find(|(c, _)| *c == cp) {
-            return Some(MapVariant::Variant(GlyphId::new(*g as u32)));
-        }
-    }
-    None
 }
 
 fn check_uvs(run: &Run, spec: &[SelSpec], l: &mut Local) {
@@ -927,8 +940,9 @@ fn check_uvs(run: &Run, spec: &[SelSpec], l: &mut Local) {
                     Some(MapVariant::Variant(_)) => "a non-default sequence",
                     None => "an unencoded sequence",
                 };
+                let alt = uvs_expected2(spec, cp, sel).1;
                 let got = c14.map_variant(cp, sel);
-                if got != exp {
+                if got != exp && !(alt.is_some() && got == alt) {
                     run.violation(
                         &format!("Cmap14::map_variant wrong answer for {kind} ({})", region(cp)),
                         &format!("map_variant(U+{cp:04X}, U+{sel:04X}) = {got:?}, encoded {exp:?}; {spec:x?}"),
@@ -936,7 +950,7 @@ fn check_uvs(run: &Run, spec: &[SelSpec], l: &mut Local) {
                     );
                 }
                 let got = charmap.map_variant(cp, sel);
-                if got != exp {
+                if got != exp && !(alt.is_some() && got == alt) {
                     run.violation(
                         &format!("Charmap::map_variant wrong answer for {kind} ({})", region(cp)),
                         &format!("map_variant(U+{cp:04X}, U+{sel:04X}) = {got:?}, encoded {exp:?}; {spec:x?}"),
@@ -1026,7 +1040,7 @@ fn check_uvs(run: &Run, spec: &[SelSpec], l: &mut Local) {
 }
 
 fn uvs_family(run: &Run) {
-    let bodies = uvs_bodies();
+    let bodies = uvs_bodies(false);
     run.bound("F4.selectors", json!(UVS_SELECTORS));
     run.bound("F4.default_ranges", json!(UVS_RANGES));
     run.bound("F4.nondefault_chars", json!(UVS_ND_CPS));
@@ -1038,11 +1052,16 @@ fn uvs_family(run: &Run) {
     for s in UVS_SELECTORS {
         sel_lists.push(vec![s]);
     }
-    for (i, a) in UVS_SELECTORS.iter().enumerate() {
-        for b in UVS_SELECTORS.iter().skip(i + 1) {
+    // pairs: quick = pairs of the first three selectors; thorough = all ascending pairs of the five
+    let npair = run.tier.pick(3usize, 5usize);
+    let mut sorted = UVS_SELECTORS[..npair].to_vec();
+    sorted.sort();
+    for (i, a) in sorted.iter().enumerate() {
+        for b in sorted.iter().skip(i + 1) {
             sel_lists.push(vec![*a, *b]);
         }
     }
+    run.bound("F4.selector_pairs_from_first", json!(npair));
     let stride2 = 1usize;
     let mut tasks: Vec<(usize, usize)> = vec![];
     for (si, s) in sel_lists.iter().enumerate() {
@@ -1087,11 +1106,323 @@ fn uvs_family(run: &Run) {
     for l in locals {
         l.merge(run, "F4");
     }
+    // F4b: one selector whose default ranges and non-default mappings overlap (ill-formed): no panic,
+    // every overlapping sequence answers one of its two encoded answers, all others exactly
+    let clash = uvs_bodies(true);
+    run.bound("F4b.overlapping_bodies", json!(clash.len()));
+    let mut l = Local::new();
+    for s in UVS_SELECTORS {
+        for b in &clash {
+            check_uvs(run, &[SelSpec { sel: s, def: b.0.clone(), nondef: b.1.clone() }], &mut l);
+        }
+    }
+    l.merge(run, "F4b");
     run.sample(uvs_json(&[SelSpec {
         sel: 0xFE00,
         def: Some(vec![(0x30, 2)]),
         nondef: Some(vec![(0x41, 5)]),
     }]));
+}
+
+// ---------------------------------------------------------------------------
+// F5: edge inputs — duplicates, conflicts, glyph 0, U+FFFF, very large mappings
+// ---------------------------------------------------------------------------
+
+/// raw input list of an edge case, from its description (replayable without storing 60k pairs)
+fn edge_input(d: &Value) -> (Vec<(u32, u16)>, bool) {
+    let base: Vec<(u32, u16)> = vec![(0x41, 5), (0x42, 6), (0x43, 9), (0x2000, 7), (0xFFFD, 3), (0xFFFE, 4)];
+    let n = d["n"].as_u64().unwrap_or(0) as usize;
+    let g = d["g"].as_u64().unwrap_or(0) as u16;
+    let supp = d["supp"].as_bool().unwrap_or(false);
+    let mut conflict = false;
+    let scalar = |c: u32| !(0xD800..=0xDFFF).contains(&c);
+    let mut v: Vec<(u32, u16)> = match d["family"].as_str().unwrap_or("") {
+        // every pair n+1 times, interleaved
+        "dup" => (0..=n).flat_map(|_| base.clone()).collect(),
+        // pair number n of the base list gets a second, different glyph
+        "conflict" => {
+            conflict = true;
+            let mut v = base.clone();
+            v.push((base[n % base.len()].0, base[n % base.len()].1 + 100 + g));
+            v
+        }
+        // character number n of the base list maps to glyph 0
+        "gid0" => {
+            let mut v = base.clone();
+            let k = n % v.len();
+            v[k].1 = 0;
+            v
+        }
+        // U+FFFF -> g, with U+FFFE mapped (n = 1) or not (n = 0)
+        "ffff" => {
+            let mut v: Vec<(u32, u16)> = base.iter().copied().filter(|p| n == 1 || p.0 != 0xFFFE).collect();
+            v.push((0xFFFF, g));
+            v
+        }
+        // n isolated characters (every other code point from U+0100): n + 1 format-4 segments
+        "isolated" => (0..n as u32)
+            .map(|i| 0x100 + 2 * i)
+            .map(|c| if c >= 0xD800 { c + 0x800 } else { c })
+            .enumerate()
+            .map(|(i, c)| (c, 1 + (i % 60000) as u16))
+            .collect(),
+        // every BMP scalar value except U+FFFF: g = 0 in order, 1 reversed, 2 stride 2 in glyph ids
+        "allbmp" => {
+            let cps: Vec<u32> = (0..0xFFFFu32).filter(|c| scalar(*c)).collect();
+            let k = cps.len();
+            cps.iter()
+                .enumerate()
+                .map(|(i, c)| {
+                    (*c, match g {
+                        0 => 1 + i as u16,
+                        1 => (k - i) as u16,
+                        _ => 1 + ((2 * i) % 65533) as u16,
+                    })
+                })
+                .collect()
+        }
+        // a run of n characters with unordered glyphs: one range-offset segment with n glyph ids
+        "scrambled" => (0..n as u32).map(|i| (0x100 + i, 1 + ((i * 7919) % 60000) as u16)).collect(),
+        _ => vec![],
+    };
+    if supp {
+        v.push((0x10000, 11));
+        v.push((0x10FFFF, 12));
+    }
+    (v, conflict)
+}
+
+fn check_edge(run: &Run, d: &Value, l: &mut Local) {
+    l.evals += 1;
+    let family = d["family"].as_str().unwrap_or("?").to_string();
+    let (raw, expect_conflict) = edge_input(d);
+    let case = || {
+        let mut c = d.clone();
+        c["kind"] = json!("edge");
+        c
+    };
+    let input: Vec<(char, GlyphId)> = raw
+        .iter()
+        .map(|(c, g)| (char::from_u32(*c).expect("scalar"), GlyphId::new(*g as u32)))
+        .collect();
+    // expected map: deduplicated; glyph-0 targets and U+FFFF are outside the statement (no panic only)
+    let mut m: Mapping = raw.clone();
+    m.sort();
+    m.dedup();
+    let exempt = |c: u32, g: u16| c == 0xFFFF || g == 0;
+    l.trans += 1;
+    let built = match guard(|| wc::Cmap::from_mappings(input)) {
+        Ok(Ok(c)) => {
+            if expect_conflict {
+                run.violation(
+                    "Cmap::from_mappings accepts a character mapped to two different glyphs",
+                    &format!("{d}"),
+                    case(),
+                );
+                return;
+            }
+            c
+        }
+        Ok(Err(e)) => {
+            if !expect_conflict {
+                run.violation(
+                    &format!("Cmap::from_mappings reports a conflict for a conflict-free mapping ({family})"),
+                    &format!("{e}"),
+                    case(),
+                );
+            } else {
+                let mut h = Fnv::new();
+                h.str("conflict");
+                h.str(&format!("{e}"));
+                l.all.insert(h.finish());
+                l.nontrivial.insert(h.finish());
+            }
+            return;
+        }
+        Err(p) => {
+            // known shape: the glyph-id array of a range-offset segment lies more than 65535 bytes
+            // behind its idRangeOffset word (`id_range_offset.try_into().unwrap()`)
+            let huge = m.iter().filter(|p| p.0 <= 0xFFFF).count() > 8000;
+            let id = if huge && p.message.contains("TryFromIntError") && p.file.ends_with("tables/cmap.rs") {
+                ID_RANGE_OFFSET.to_string()
+            } else {
+                format!("Cmap::from_mappings panic ({family} input): {} in {}", p.kind(), p.site())
+            };
+            run.violation(
+                &id,
+                &format!("{d}: {} ({}:{})", p.message, p.file, p.line),
+                case(),
+            );
+            return;
+        }
+    };
+    l.trans += 1;
+    let bytes = match guard(|| dump_table(&built)) {
+        Ok(Ok(b)) => b,
+        Ok(Err(e)) => {
+            // a clean refusal of an over-large table is acceptable ("error or be correct")
+            let mut h = Fnv::new();
+            h.str("refused");
+            h.str(&family);
+            l.all.insert(h.finish());
+            run.count(&format!("F5.refused_by_dump_table.{family}"), 1);
+            let _ = e;
+            return;
+        }
+        Err(p) => {
+            let id = if p.message.starts_with("cmap4 overflow") {
+                ID_CMAP4_LEN.to_string()
+            } else {
+                format!("Cmap compile panic ({family} input): {} in {}", p.kind(), p.site())
+            };
+            run.violation(
+                &id,
+                &format!("{d} ({} pairs): {} ({}:{})", m.len(), p.message, p.file, p.line),
+                case(),
+            );
+            return;
+        }
+    };
+    l.compiled += 1;
+    let font_bytes = FontBuilder::new()
+        .add_raw(Tag::new(b"cmap"), bytes)
+        .add_raw(Tag::new(b"maxp"), maxp_bytes())
+        .build();
+    let r = guard(|| {
+        let font = FontRef::new(&font_bytes).expect("font parses");
+        let cmap = match font.cmap() {
+            Ok(c) => c,
+            Err(e) => {
+                run.violation(&format!("compiled cmap does not parse ({family} input)"), &format!("{e}"), case());
+                return;
+            }
+        };
+        let charmap = Charmap::new(&font);
+        let mut lookups = 0u64;
+        let mut budget = 3;
+        for &(c, g) in &m {
+            // the exempt characters themselves: any answer, but no panic
+            let top = cmap.map_codepoint(c);
+            let hi = charmap.map(c);
+            lookups += 2;
+            if exempt(c, g) {
+                continue;
+            }
+            if (top != Some(GlyphId::new(g as u32)) || hi != Some(GlyphId::new(g as u32))) && budget > 0 {
+                budget -= 1;
+                run.violation(
+                    &format!("wrong answer for a mapped character ({family} input, {})", region(c)),
+                    &format!("{d}: U+{c:04X} -> table {top:?}, Charmap {hi:?}, input {g}"),
+                    case(),
+                );
+            }
+            // unmapped neighbours
+            for nb in [c.wrapping_sub(1), c + 1] {
+                if nb == 0xFFFF || nb > 0x10FFFF || expected(&m, nb).is_some() {
+                    continue;
+                }
+                // a binary search keyed by code point: m is sorted by (cp, gid), cp unique unless exempt
+                lookups += 2;
+                let t = cmap.map_codepoint(nb);
+                if (!(t.is_none() || t == Some(GlyphId::NOTDEF)) || charmap.map(nb).is_some()) && budget > 0 {
+                    budget -= 1;
+                    run.violation(
+                        &format!("glyph returned for an unmapped character ({family} input, {})", region(nb)),
+                        &format!("{d}: U+{nb:04X} -> {t:?}"),
+                        case(),
+                    );
+                }
+            }
+        }
+        let want: Vec<(u32, u32)> = m.iter().filter(|(c, g)| !exempt(*c, *g)).map(|(c, g)| (*c, *g as u32)).collect();
+        let exempt_cps: Vec<u32> = m.iter().filter(|(c, g)| exempt(*c, *g)).map(|p| p.0).collect();
+        let got: Vec<(u32, u32)> = charmap
+            .mappings()
+            .take(m.len() + 70_000)
+            .map(|(c, g)| (c, g.to_u32()))
+            .filter(|e| !exempt_cps.contains(&e.0) && e.0 != 0xFFFF)
+            .collect();
+        if let Some((id, detail)) = diff_enumeration(&got, &want) {
+            run.violation(&format!("Charmap::mappings {id} ({family} input)"), &format!("{d}: {detail}"), case());
+        }
+        l.lookups += lookups;
+        l.trans += lookups + 1;
+        let mut h = Fnv::new();
+        h.str(&family);
+        h.u64(font_bytes.len() as u64);
+        h.u64(m.len() as u64);
+        l.all.insert(h.finish());
+        l.nontrivial.insert(h.finish());
+    });
+    if let Err(p) = r {
+        run.violation(
+            &format!("cmap reader panic ({family} input): {} in {}", p.kind(), p.site()),
+            &format!("{d}: {} ({}:{})", p.message, p.file, p.line),
+            case(),
+        );
+    }
+}
+
+fn edge_family(run: &Run) {
+    let mut cases: Vec<Value> = vec![];
+    for supp in [false, true] {
+        for n in 0..3 {
+            cases.push(json!({"family":"dup","n":n,"supp":supp}));
+        }
+        for n in 0..6 {
+            for g in [0, 1] {
+                cases.push(json!({"family":"conflict","n":n,"g":g,"supp":supp}));
+            }
+            cases.push(json!({"family":"gid0","n":n,"supp":supp}));
+        }
+        for n in 0..2 {
+            for g in [0u16, 1, 4, 5, 0xFFFE] {
+                cases.push(json!({"family":"ffff","n":n,"g":g,"supp":supp}));
+            }
+        }
+        // format-4 length limit: 16 + 8 (n + 1) bytes crosses 65535 between n = 8188 and 8189
+        let iso: Vec<usize> = match run.tier {
+            Tier::Quick => vec![1, 100, 4095, 4096, 8187, 8188, 8189, 8190, 20000],
+            Tier::Thorough => (8180..8196).chain([1, 100, 4095, 4096, 16383, 16384, 20000, 31000]).collect(),
+        };
+        for n in iso {
+            cases.push(json!({"family":"isolated","n":n,"supp":supp}));
+        }
+        // one range-offset segment: 16 + 16 + 2 n bytes crosses 65535 between n = 32751 and 32752
+        for n in [100usize, 32750, 32751, 32752, 32753, 40000] {
+            cases.push(json!({"family":"scrambled","n":n,"supp":supp}));
+        }
+        for g in 0..3 {
+            cases.push(json!({"family":"allbmp","g":g,"supp":supp}));
+        }
+    }
+    run.bound("F5.families", json!(["dup (identical pairs repeated)", "conflict (must be Err)", "gid0 target (no panic, others exact)", "U+FFFF as input (no panic, others exact)", "isolated n (n+1 segments)", "scrambled run of n (one range-offset segment)", "all BMP scalars (in order / reversed / stride-2 glyphs)"]));
+    run.count("F5.descriptions", cases.len() as u64);
+    // small descriptions first and sequentially (so that the replay written for an identity is the
+    // smallest failing description), the large ones in parallel
+    let size = |d: &Value| d["n"].as_u64().unwrap_or(0) + if d["family"] == "allbmp" { 1 << 20 } else { 0 };
+    cases.sort_by_key(|d| (size(d), d["supp"].as_bool().unwrap_or(false)));
+    let split = cases.iter().position(|d| size(d) > 9000).unwrap_or(cases.len());
+    let mut locals: Vec<Local> = vec![];
+    for d in &cases[..split] {
+        let mut l = Local::new();
+        check_edge(run, d, &mut l);
+        locals.push(l);
+    }
+    locals.extend(
+        cases[split..]
+            .par_iter()
+            .map(|d| {
+                let mut l = Local::new();
+                check_edge(run, d, &mut l);
+                l
+            })
+            .collect::<Vec<_>>(),
+    );
+    for l in locals {
+        l.merge(run, "F5");
+    }
+    run.sample(json!({"kind":"edge","family":"isolated","n":8188,"supp":false}));
 }
 
 // ---------------------------------------------------------------------------
@@ -1115,6 +1446,7 @@ fn body(run: &Run, replay: Option<&Value>) {
                 check_mapping(run, &m, case["full_bmp"].as_bool().unwrap_or(false), &mut l);
             }
             Some("uvs") => check_uvs(run, &uvs_from_json(case), &mut l),
+            Some("edge") => check_edge(run, case, &mut l),
             _ => run.machinery_error("unknown replay kind"),
         }
         return;
@@ -1145,4 +1477,5 @@ fn body(run: &Run, replay: Option<&Value>) {
     run_family(run);
     block_family(run);
     uvs_family(run);
+    edge_family(run);
 }
